@@ -536,6 +536,17 @@ func runBounded(repo, replayRoot, spec, tier, tmp string) []BoundedResult {
 			br.Ran = true
 			br.Failures = 1
 			br.First = fmt.Sprintf("the stand-in did not finish within %s (a call on the real code hangs or the bound is too large)", limit)
+		} else if i := strings.Index(string(out), "panic: "); i >= 0 && !strings.Contains(string(out), "[build failed]") {
+			// the real code panicked on an enumerated input and the stand-in had no recover around it
+			br.Ran = true
+			br.Failures = 1
+			line, _, _ := strings.Cut(string(out)[i:], "\n")
+			br.First = "the real code panicked during the enumeration: " + line
+		} else if strings.Contains(string(out), "[build failed]") {
+			// the stand-in no longer compiles against this tree (it names something the code no longer has)
+			br.Ran = true
+			br.Failures = 1
+			br.First = "the stand-in does not build against the current code: " + trunc(strings.TrimSpace(string(out)), 300)
 		}
 		res = append(res, br)
 	}
